@@ -41,9 +41,9 @@ func (g *lgen) freeStr(l string) string { return g.free(l, poolLocalStrings) }
 
 func (g *lgen) pick(l string, d int, n int) int {
 	if d <= 0 {
-		return rapid.IntRange(0, 1).Draw(g.t, l)
+		return uniform(g.t, l, 2)
 	}
-	return rapid.IntRange(0, n-1).Draw(g.t, l)
+	return uniform(g.t, l, n)
 }
 
 // str draws a string-valued expression.
@@ -110,7 +110,7 @@ func (g *lgen) template(l string, d int) Expr {
 	var parts []Expr
 	interp, literal := false, false
 	for i := 0; i < n; i++ {
-		switch k := rapid.IntRange(0, 9).Draw(g.t, l+"/t.kind"); {
+		switch k := uniform(g.t, l+"/t.kind", 10); {
 		case k < 4:
 			s := g.freeStr(l + "/t.lit")
 			if s != "" {
@@ -363,7 +363,7 @@ func (e Expr) hasRef() bool { return e.Kinds()["ref"] }
 func AddLocals(t *rapid.T, m *Model, o Opts) {
 	g := &lgen{sgen: sgen{t: t, opts: o}, visible: Env{}, types: map[string]string{}}
 	m.Exprs = map[string]Expr{}
-	nb := rapid.IntRange(1, 3).Draw(t, "locals#blocks")
+	nb := 1 + uniform(t, "locals#blocks", 3)
 	decl := map[string]Expr{} // first declaration of each local
 	for b := 0; b < nb; b++ {
 		bl := fmt.Sprintf("locals[%d]", b)
@@ -404,7 +404,7 @@ func AddLocals(t *rapid.T, m *Model, o Opts) {
 			for j := 2; inBlock[name] || g.types[name] != ""; j++ {
 				name = fmt.Sprintf("%s_%d", strings.TrimRight(name, "0123456789_"), j)
 			}
-			typ := rapid.SampledFrom([]string{"s", "s", "s", "l", "l", "l", "m", "m", "m", "n"}).Draw(t, ll+".type")
+			typ := pickU(t, ll+".type", []string{"s", "s", "s", "l", "l", "l", "m", "m", "m", "n"})
 			e := g.typed(ll, typ, 2)
 			v, ok := g.ev(e)
 			if !ok {
@@ -565,7 +565,7 @@ func (g *lgen) wrapList(path string, l []string, m *Model) (Expr, bool) {
 		}
 		seen[e] = true
 	}
-	switch rapid.IntRange(0, 9).Draw(g.t, path+"/wrap") {
+	switch uniform(g.t, path+"/wrap", 10) {
 	case 0:
 		return call("concat", listLit(l[:k]), listLit(l[k:])), true
 	case 1:
